@@ -136,6 +136,9 @@ func scenarios(r *rand.Rand, n int) []*Scenario {
 		func(s *Scenario) { s.Mut = "issuer-unknown"; s.Req.Issuer = idp.S("https://other.example/md") },
 		func(s *Scenario) { s.Mut = "issuer-absent"; s.Req.Issuer = nil },
 		func(s *Scenario) { s.Mut = "issuer-lookalike"; s.Req.Issuer = idp.S(spEntity + "/") },
+		func(s *Scenario) { s.Mut = "issuer-padded"; s.Req.Issuer = idp.S(" " + spEntity + "\n") },
+		func(s *Scenario) { s.Mut = "issuer-case"; s.Req.Issuer = idp.S(strings.ToUpper(spEntity)) },
+		func(s *Scenario) { s.Mut = "issuer-empty"; s.Req.Issuer = idp.S("") },
 		func(s *Scenario) { s.Mut = "sp-unregistered"; s.Known = false },
 		func(s *Scenario) { s.Mut = "no-nameid"; s.Req.NameID = nil; s.Req.SessionIndex = true },
 		func(s *Scenario) { s.Mut = "no-id"; s.Req.ID = nil },
